@@ -877,6 +877,9 @@ impl Director {
                     let v = run.w.u.mk_vote(b.digest(), round, *j);
                     self.give(run, Stim::Msg(ConsensusMessage::Vote(v))).await;
                 }
+                // a correctly signed vote of a key that is not in the committee: no stake, must not be counted
+                let outsider = run.w.u.mk_vote(b.digest(), round, 100);
+                self.give(run, Stim::Msg(ConsensusMessage::Vote(outsider))).await;
                 let mut forged = run.w.u.mk_vote(b.digest(), round, minority[0]);
                 forged.author = run.w.u.pk(node);
                 if self.rng.gen_bool(0.5) {
@@ -952,7 +955,7 @@ impl Director {
     async fn mischief(&mut self, run: &mut Run<'_>) {
         let node = run.w.node;
         let u_n = run.w.u.n() as u64;
-        match self.rng.gen_range(0, 12) {
+        match self.rng.gen_range(0, 13) {
             0 => {
                 // replay an old message
                 if let Some(s) = self.old.choose(&mut self.rng).cloned() {
@@ -1049,6 +1052,16 @@ impl Director {
                 let j = *others(&run.w.u, node).choose(&mut self.rng).unwrap();
                 let tc = if self.rng.gen_bool(0.5) { run.w.u.mk_tc(self.round, &[(j, 0), (j, 0), (j, 0)]) } else { run.w.u.mk_tc(self.round, &[(j, 0)]) };
                 self.give(run, Stim::Msg(ConsensusMessage::TC(tc))).await;
+            }
+            11 => {
+                // a correctly signed timeout of a member that carries a high QC which does not verify
+                // (one signer, for a future round): rejected as a whole; then the node's own timer,
+                // so that the round it acts in afterwards is visible
+                let j = *others(&run.w.u, node).choose(&mut self.rng).unwrap();
+                let bogus = run.w.u.mk_qc(self.tip.hash.clone(), self.round + self.rng.gen_range(1, 4), &[j]);
+                let t = run.w.u.mk_timeout(self.round, bogus, j);
+                self.give(run, Stim::Msg(ConsensusMessage::Timeout(t))).await;
+                self.give(run, Stim::Timer).await;
             }
             _ => {
                 // a withheld block finally arrives unsolicited
